@@ -7,6 +7,7 @@ import (
 	"io"
 	"io/ioutil"
 	"math/rand"
+	"strings"
 
 	"github.com/dsnet/compress/bzip2"
 	"github.com/dsnet/compress/xflate/verifharness/gen"
@@ -269,6 +270,25 @@ func runC03(r *vhlib.Run) {
 			c03Check(r, d, "members-rising-level", false)
 		}
 	}
+	// consecutive blocks whose code tables are near copies of each other (what is built for one block
+	// must not leak into the next)
+	nrel := 150
+	if !r.Quick() {
+		nrel = 3000
+	}
+	for i := 0; i < nrel; i++ {
+		c03Check(r, gen.BzRelatedBlocks(rng).Data, "synth-related-blocks", i%3 == 0)
+	}
+	// completely full blocks whose symbols save nothing (the largest number of groups and selectors
+	// a block can need: 2001 at level 1 ... 18001 at level 9), and blocks one group short of that
+	for _, lv := range []int{1, 9, 2 + rng.Intn(7)} {
+		for _, short := range []int{0, 1, 49, 50} {
+			if r.Quick() && lv != 9 && short > 1 {
+				continue
+			}
+			c03Check(r, gen.BzFullBlock(rng, lv, short).Data, "synth-full-block", false)
+		}
+	}
 	// targeted limit cases (100000-byte blocks): implementation + libbz2 always, model in thorough
 	for _, t := range gen.BzTargeted(rng) {
 		c03Check(r, t.Data, t.Kind, !r.Quick() || len(t.Data) < 2000)
@@ -327,6 +347,7 @@ func runC04(r *vhlib.Run) {
 			r.Violate("bad-level-accepted", fmt.Sprint(lv), map[string]interface{}{"level": lv})
 		}
 	}
+	c04PrefixStage(r)
 	n := 150
 	if !r.Quick() {
 		n = 3000
@@ -472,4 +493,138 @@ func runC04(r *vhlib.Run) {
 		c04Check(r, d, 9, "geometric", false)
 	}
 	r.Sample(map[string]interface{}{"input": "6869", "level": 1, "sink": "425a68313141592653599a89b422000000010000602000219e82021772453850909a89b422"})
+}
+
+// c04PrefixStage drives the prefix-coding stage of the Writer (encodePrefix: tree assignment per
+// group of 50 symbols, GenerateLengths with the 20-bit limit, the selectors, the code tables and
+// the symbols themselves) directly with symbol sequences of EVERY frequency profile - among them
+// profiles an actual block would need hundreds of kilobytes of special input for: per-tree exact
+// Fibonacci counts (code lengths up to the limit) with the rarest symbols adjacent at each
+// alignment within a group. What is written must read back through decodePrefix as the same
+// symbols, and (for the smaller sequences) equal the bits of the model's encode_prefix.
+func c04PrefixStage(r *vhlib.Run) {
+	rng := r.Rng
+	check := func(kind string, syms []uint16, numSyms int, model bool) {
+		r.Eval("prefix-stage:"+kind, true, []byte(fmt.Sprint(numSyms, len(syms))), u16bytes(syms[:min(len(syms), 4000)]))
+		replay := map[string]interface{}{"kind": kind, "numSyms": numSyms, "nsyms": len(syms)}
+		if len(syms) <= 3000 {
+			replay["syms"] = syms
+		}
+		var out []byte
+		var back []uint16
+		var err, derr error
+		pan := ""
+		func() {
+			defer func() {
+				if p := recover(); p != nil {
+					pan = fmt.Sprint(p)
+				}
+			}()
+			out, err = bzip2.VerifEncodePrefix(syms, numSyms)
+			if err == nil {
+				back, derr = bzip2.VerifDecodePrefix(out, numSyms)
+			}
+		}()
+		if pan != "" || err != nil {
+			r.Violate("write-failed", fmt.Sprintf("encodePrefix(%d symbols, numSyms=%d): panic=%q err=%v", len(syms), numSyms, pan, err), replay)
+			return
+		}
+		same := derr == nil && len(back) == len(syms)
+		for i := 0; same && i < len(syms); i++ {
+			same = back[i] == syms[i]
+		}
+		if !same {
+			r.Violate("own-reader-rejects-or-differs", fmt.Sprintf("the prefix-coded symbols of a block do not read back: %d symbols written (numSyms=%d, %d bytes), decodePrefix gives %d symbols, err=%v", len(syms), numSyms, len(out), len(back), derr), replay)
+			return
+		}
+		if model {
+			ss := make([]string, len(syms))
+			for i, x := range syms {
+				ss[i] = fmt.Sprint(x)
+			}
+			a := strings.Join(ss, ",")
+			if a == "" {
+				a = "-"
+			}
+			r.Case("bzpfx", []string{fmt.Sprint(numSyms), a}, vhlib.Hex(out))
+		}
+	}
+	// (a) random profiles
+	nrand := 60
+	if !r.Quick() {
+		nrand = 1500
+	}
+	for i := 0; i < nrand; i++ {
+		numSyms := 1 + rng.Intn(255)
+		if rng.Intn(3) == 0 {
+			numSyms = 1 + rng.Intn(6)
+		}
+		L := []int{0, 1, 49, 50, 51, 199, 200, 600, 1200, 2400, 5000}[rng.Intn(11)] + rng.Intn(3)
+		if rng.Intn(4) == 0 {
+			L = rng.Intn(3000)
+		}
+		ratio := []float64{1, 0.9, 0.7, 0.62, 0.5}[rng.Intn(5)]
+		syms := make([]uint16, L)
+		for j := range syms {
+			s := 0
+			for s < numSyms && rng.Float64() > 1-ratio && ratio < 1 {
+				s++
+			}
+			if ratio == 1 {
+				s = rng.Intn(numSyms + 1)
+			}
+			syms[j] = uint16(s)
+		}
+		check("random", syms, numSyms, L <= 2500)
+	}
+	// (b) per-tree exact Fibonacci counts: six trees (>= 2400 symbols), tree t owns the groups
+	// t, t+6, ...; within its groups symbol s occurs Fib(s+1) times (K symbols: depths up to K-1,
+	// cut at 20 by the limit), shuffled, except that the three rarest symbols stand next to each
+	// other at offset `al` of one of the tree's groups
+	nfib := 4
+	if !r.Quick() {
+		nfib = 40
+	}
+	for it := 0; it < nfib; it++ {
+		K := 21 + rng.Intn(4) // 21..24: six trees of Fib(K+2)-1 symbols stay below the largest block (900000)
+		numSyms := K + rng.Intn(20)
+		var bag []uint16
+		a, b := 1, 1
+		for s := 0; s < K; s++ {
+			for j := 0; j < a; j++ {
+				bag = append(bag, uint16(K-1-s))
+			}
+			a, b = b, a+b
+		}
+		// bag: symbol K-1 once, K-2 once, K-3 twice, ... symbol 0 most frequent
+		ngroups := (len(bag) + 49) / 50
+		total := ngroups * 6 * 50
+		syms := make([]uint16, total)
+		for t := 0; t < 6; t++ {
+			mine := append([]uint16{}, bag...)
+			for len(mine) < ngroups*50 {
+				mine = append(mine, 0)
+			}
+			// take the three rarest out, shuffle the rest, put the three back side by side
+			rest := mine[3:]
+			rng.Shuffle(len(rest), func(x, y int) { rest[x], rest[y] = rest[y], rest[x] })
+			g := rng.Intn(ngroups)
+			al := (it + t) % 48
+			pos := g*50 + al
+			seq := append(append(append([]uint16{}, rest[:pos]...), mine[0], mine[1], mine[2]), rest[pos:]...)
+			for k, x := range seq {
+				grp := k / 50
+				syms[(grp*6+t)*50+k%50] = x
+			}
+		}
+		check("fibonacci-per-tree", syms, numSyms, false)
+	}
+}
+
+func u16bytes(s []uint16) []byte {
+	b := make([]byte, 2*len(s))
+	for i, x := range s {
+		b[2*i], b[2*i+1] = byte(x), byte(x>>8)
+	}
+	return b
 }
